@@ -21,8 +21,10 @@ Clause map (theorems are about the ports in `Ranges.lean` / `Iter.lean`, which a
   ends after its start; evaluated by the driver on every real case.  OPEN: `changed_sorted_bounded`,
   the same statement without the hypothesis, i.e. a proof that the lock-step walk only makes
   admissible calls for ALL pairs of trees — needs the geometric invariants of the two cursors.)
-* "every character whose stack differs is covered"            → decided per case by the Lean judge
-  (`Judge.lean`) on the real outputs; OPEN as a theorem (`changed_covers`, needs `MatchSound`, DESIGN §7).
+* "every character whose stack differs is covered"            → `changed_covers_partial` (under MatchSound /
+  PassSound and two shape hypotheses on the walk's trace, all discharged per real case by the driver) and,
+  independently, decided per case by the Lean judge (`Judge.lean`) on the real outputs; OPEN as an
+  unconditional theorem (`changed_covers`).
 * "also when the included ranges changed"                      → OPEN and FALSE for the code as it is:
   `override_span_witness` (genuine defect, known_findings/C04.json, fixes/C04-range-override-in-padding.diff)
 
@@ -122,6 +124,56 @@ backwards, are admissible, and give the single range [2,11).  (Real histories al
 hence the conclusion is `start ≤ end`, not `start < end`.) -/
 example : let tr : List (Length × Length) := [(⟨2,⟨0,2⟩⟩, ⟨11,⟨0,11⟩⟩), (⟨11,⟨0,11⟩⟩, ⟨6,⟨0,6⟩⟩), (⟨6,⟨0,6⟩⟩, ⟨11,⟨0,11⟩⟩)]
     traceAdmissible [] tr = true ∧ (foldAdd [] tr).reverse = [⟨⟨0,2⟩,⟨0,11⟩,2,11⟩] := by decide
+
+/-- `changed_covers_partial` — the coverage clause for the walk, for ALL tree pairs, alias tables and
+difference lists, and for arbitrary per-byte stack functions `so`/`sn` (the judge's scope stacks):
+IF (a) every call to `ts_range_array_add` grows the array (`traceGrow`), (b) the iterations' spans
+tile the bytes from `lo` on without going backwards (`spansTile`), and (c) **MatchSound / PassSound**:
+on every span the walk did NOT hand to `add` — `compare` answered *Matches* (label 1) or the span was
+passed over without a possible descent (label 2) — the two stacks agree at every byte,
+THEN every byte between `lo` and the end of the tiling whose stacks differ lies in a reported range,
+and so does every byte of the call made before the loop and of the final size-difference call.
+(a)–(c) are decidable and are evaluated by the driver on every real case (`cov=ok`); (c) is where
+parser determinism enters (DESIGN §7: MatchSound is a hypothesis, discharged per case).
+OPEN `changed_covers`: (a), (b) for all tree pairs (they fail on the rare "roots start at different
+offsets" traces, see below) and (c) from a model of the parser. -/
+theorem changed_covers_partial {α : Type} (al : AliasTable) (fixed : Bool) (old new : Tree)
+    (diffs : List TSRange) (so sn : Nat → α) (lo : Nat)
+    (hgrow : traceGrow [] ((changedRanges al fixed old new diffs).main ++ (changedRanges al fixed old new diffs).post) = true)
+    (htile : spansTile lo (changedRanges al fixed old new diffs).spans = true)
+    (hsound : ∀ sp ∈ (changedRanges al fixed old new diffs).spans, sp.2.2 ≠ 0 →
+      ∀ p, sp.1.bytes ≤ p → p < sp.2.1.bytes → so p = sn p) :
+    (∀ p, lo ≤ p → p < spansEnd lo (changedRanges al fixed old new diffs).spans → so p ≠ sn p →
+      mem (changedRanges al fixed old new diffs).ranges p) ∧
+    (∀ c ∈ (changedRanges al fixed old new diffs).pre ++ (changedRanges al fixed old new diffs).post,
+      ∀ p, c.1.bytes ≤ p → p < c.2.bytes → mem (changedRanges al fixed old new diffs).ranges p) := by
+  have hr : (changedRanges al fixed old new diffs).ranges =
+      (foldAdd [] ((changedRanges al fixed old new diffs).main ++ (changedRanges al fixed old new diffs).post)).reverse := by
+    rw [← foldAdd_append]; rfl
+  have hmain : (changedRanges al fixed old new diffs).main =
+      (changedRanges al fixed old new diffs).pre ++ callsOf (changedRanges al fixed old new diffs).spans := rfl
+  have hg := foldAdd_grow _ [] hgrow
+  refine ⟨?_, ?_⟩
+  · intro p h1 h2 hne
+    obtain ⟨sp, hsp, h3, h4⟩ := tile_find _ lo p htile h1 h2
+    by_cases hl : sp.2.2 = 0
+    · rw [hr, mem_reverse]
+      refine (hg p).2 (sp.1, sp.2.1) ?_ h3 h4
+      rw [hmain]
+      refine List.mem_append_left _ (List.mem_append_right _ ?_)
+      unfold callsOf
+      exact List.mem_filterMap.2 ⟨sp, hsp, by simp [hl]⟩
+    · exact absurd (hsound sp hsp hl p h3 h4) hne
+  · intro c hc p h3 h4
+    rw [hr, mem_reverse]
+    refine (hg p).2 c ?_ h3 h4
+    rw [hmain]
+    rcases List.mem_append.1 hc with h | h
+    · exact List.mem_append_left _ (List.mem_append_left _ h)
+    · exact List.mem_append_right _ h
+
+example : traceGrow [] [(⟨1,⟨0,1⟩⟩, ⟨5,⟨0,5⟩⟩), (⟨5,⟨0,5⟩⟩, ⟨7,⟨0,7⟩⟩), (⟨3,⟨0,3⟩⟩, ⟨9,⟨0,9⟩⟩)] = true ∧
+    spansTile 1 [(⟨1,⟨0,1⟩⟩, ⟨5,⟨0,5⟩⟩, 0), (⟨5,⟨0,5⟩⟩, ⟨5,⟨0,5⟩⟩, 2), (⟨5,⟨0,5⟩⟩, ⟨7,⟨0,7⟩⟩, 1)] = true := by decide
 
 /-! ## The coverage clause when the included ranges changed: OPEN, and false for the code as it is
 
